@@ -11,6 +11,7 @@ use crate::error::{SnmpError, SnmpResult};
 use pyo3::types::PyString;
 use pyo3::{Bound, IntoPyObject, PyAny, Python};
 use std::borrow::Cow;
+use std::cmp::Ordering;
 use std::fmt::Write;
 
 // Object identifier type
@@ -89,6 +90,25 @@ impl SnmpOid<'_> {
     #[inline]
     pub fn starts_with(&self, oid: &SnmpOid) -> bool {
         oid.0.starts_with(&self.0)
+    }
+    // Lexicographic order of RFC 3416: compare sub-identifier by sub-identifier
+    pub fn cmp_arcs(&self, other: &SnmpOid) -> Ordering {
+        let mut x_iter = self.0.split_inclusive(|c| c & 0x80 == 0);
+        let mut y_iter = other.0.split_inclusive(|c| c & 0x80 == 0);
+        loop {
+            match (x_iter.next(), y_iter.next()) {
+                (None, None) => return Ordering::Equal,
+                (None, Some(_)) => return Ordering::Less,
+                (Some(_), None) => return Ordering::Greater,
+                (Some(x), Some(y)) => {
+                    // Longer minimal encoding means greater value
+                    let r = x.len().cmp(&y.len()).then_with(|| x.cmp(y));
+                    if r != Ordering::Equal {
+                        return r;
+                    }
+                }
+            }
+        }
     }
 }
 
